@@ -93,8 +93,8 @@ def install(ex):
     reg("os.replace", os_rename)
 
     def os_unlink(I, p):
+        trace(I).append(("unlink", p, None))      # the attempt is the event; it may still fail
         maybe_fault(I, "unlink")
-        trace(I).append(("unlink", p, None))
     reg("os.unlink", os_unlink)
     reg("os.remove", os_unlink)
 
